@@ -431,6 +431,87 @@ def jsonable(x):
 TIMEOUTS = {"quick": 20000, "thorough": 120000}
 
 
+def abstract_nl(exprs):
+    """Replace every maximal non-linear subterm (product of non-constants, division by a
+    non-constant, ln/ex/sqrt application) by a fresh real, consistently (same AST -> same
+    variable).  If the abstracted formula is unsat, so is the original (every model of the
+    original induces a model of the abstraction)."""
+    cache = {}
+    names = {}
+
+    def is_num(e):
+        return z3.is_rational_value(e) or z3.is_int_value(e)
+
+    def walk(e):
+        k = e.get_id()
+        if k in cache:
+            return cache[k]
+        if not z3.is_app(e) or e.num_args() == 0:
+            cache[k] = e
+            return e
+        kind = e.decl().kind()
+        ch = [walk(c) for c in e.children()]
+        r = None
+        coef = None
+        if kind == z3.Z3_OP_MUL:
+            # flatten nested products, split off the numeric coefficient, sort the factors
+            facs, coef = [], Fraction(1)
+            stack = list(e.children())
+            while stack:
+                f = stack.pop()
+                if z3.is_app(f) and f.decl().kind() == z3.Z3_OP_MUL:
+                    stack.extend(f.children())
+                elif is_num(f):
+                    coef *= f.as_fraction() if z3.is_rational_value(f) else Fraction(f.as_long())
+                else:
+                    facs.append(walk(f))
+            if len(facs) >= 2:
+                facs.sort(key=lambda t: t.get_id())
+                key = ("*", tuple(t.get_id() for t in facs))
+                if key not in names:
+                    names[key] = z3.Const("abs!%d" % len(names), e.sort())
+                    names[key]._keep = facs
+                out = names[key] if coef == 1 else z3.RealVal("%d/%d" % (coef.numerator, coef.denominator)) * names[key]
+                cache[k] = out
+                return out
+        elif kind in (z3.Z3_OP_DIV, z3.Z3_OP_IDIV, z3.Z3_OP_MOD, z3.Z3_OP_POWER):
+            if not is_num(ch[1]):
+                r = "abs"
+        elif kind == z3.Z3_OP_UNINTERPRETED:
+            r = "abs"
+        if r == "abs":
+            key = (e.decl().name(), kind, tuple(c.get_id() for c in ch))
+            if key not in names:
+                srt = e.sort()
+                names[key] = z3.Const("abs!%d" % len(names), srt)
+                names[key]._keep = ch  # keep children alive (ids stay unique)
+            out = names[key]
+        else:
+            out = e.decl()(*ch) if ch else e
+        cache[k] = out
+        return out
+
+    res = [walk(e) for e in exprs]
+    # functional consistency (Ackermann): same operator, equal abstracted children -> equal result
+    groups = {}
+    for key, var in names.items():
+        sig = (key[0], len(var._keep))
+        groups.setdefault(sig, []).append(var)
+    cong = []
+    for sig, vs in groups.items():
+        if len(vs) < 2 or len(vs) > 60:
+            continue
+        for i in range(len(vs)):
+            for j in range(i + 1, len(vs)):
+                a, b = vs[i], vs[j]
+                if a.sort() != b.sort():
+                    continue
+                eqs_ = [x == y for x, y in zip(a._keep, b._keep) if x.get_id() != y.get_id()]
+                if all(x.sort() == y.sort() for x, y in zip(a._keep, b._keep)):
+                    cong.append(z3.Implies(z3.And(*eqs_) if eqs_ else z3.BoolVal(True), a == b))
+    return res + cong
+
+
 class Prover:
     def __init__(self, prop, job, tier="quick", seed=0):
         self.prop = prop
@@ -449,15 +530,27 @@ class Prover:
         self.assumptions = set()
 
     # ---- low level -----------------------------------------------------------------
-    def _check(self, assertions, timeout=None):
-        s = z3.Solver()
-        s.set("timeout", timeout or self.timeout)
-        s.add(assertions)
+    def _check(self, assertions, timeout=None, retries=2):
+        """one SMT query; an `unknown` is retried with permuted assertions and another seed
+        (z3's nlsat is sensitive to assertion order, which varies with AST creation order)"""
+        assertions = list(assertions)
         t = time.time()
-        r = s.check()
+        r = None
+        for attempt in range(retries + 1):
+            s = z3.Solver()
+            s.set("timeout", timeout or self.timeout)
+            if attempt:
+                s.set("random_seed", attempt)
+                rnd = random.Random(attempt)
+                assertions = list(assertions)
+                rnd.shuffle(assertions)
+            s.add(assertions)
+            r = s.check()
+            self.queries += 1
+            if r != z3.unknown:
+                break
         dt = time.time() - t
         self.solver_time += dt
-        self.queries += 1
         return str(r), s, dt
 
     def rec(self, name, verdict, **kw):
@@ -550,13 +643,16 @@ class Prover:
                         continue
                     fa, fb = flat(a), flat(b)
                     claims = []
+                    seen_bad = set()
                     for x, y in zip(fa, fb):
-                        cj = [_z(x) == _z(y)]
-                        if isinstance(x, SV) and x.bad is not None:
-                            cj.append(z3.Not(x.bad))
-                        if isinstance(y, SV) and y.bad is not None:
-                            cj.append(z3.Not(y.bad))
-                        claims.append(z3.And(*cj) if len(cj) > 1 else cj[0])
+                        claims.append(_z(x) == _z(y))
+                        for v in (x, y):
+                            if isinstance(v, SV) and v.bad is not None:
+                                # conjunct-wise, de-duplicated: finiteness facts are shared by many elements
+                                for t in (v.bad.children() if z3.is_or(v.bad) else [v.bad]):
+                                    if t.get_id() not in seen_bad:
+                                        seen_bad.add(t.get_id())
+                                        claims.append(z3.Not(t))
                     if not claims:
                         claims = [z3.BoolVal(True)]
                 elif kind == "claim":
@@ -605,8 +701,17 @@ class Prover:
             self.queries += 1
             return
         neg = z3.Not(claim)
-        ax = self._axioms(pc + [neg], out)
         t0 = time.time()
+        # 1st attempt: linear abstraction (decides syntactic/linear identities instantly)
+        try:
+            ab = abstract_nl(pc + [neg])
+            r0, s0, dt0 = self._check(ab, timeout=min(self.timeout, 5000))
+        except Exception:
+            r0 = "unknown"
+        if r0 == "unsat":
+            self.rec(oname, "unsat", time=round(time.time() - t0, 3), axioms=0, abstracted=True, reach=reach)
+            return
+        ax = self._axioms(pc + [neg], out)
         r, s, dt = self._check(pc + ax + [neg])
         rounds = 0
         rp = None
